@@ -138,6 +138,12 @@ func VP_C12_UpgradeBehaviour() {
 		raw0 = []byte(f[0] + ":" + string(pad) + f[1] + ":" + f[2] + ":" + f[3] + ":" + f[4] + "\n")
 	}
 	os.WriteFile(path, append(raw0, aux...), 0600)
+	// the rewrite may be impossible (here: the work area is a regular file): then the record stays as it is
+	obstructed := vpChoose("work-area-unusable", 2) == 1
+	if obstructed {
+		os.RemoveAll(filepath.Join(base, ".tmp"))
+		os.WriteFile(filepath.Join(base, ".tmp"), []byte("x"), 0600)
+	}
 	before := vpFsSnapshot(base)
 	pw := ""
 	if vpChoose("password-kind", 2) == 0 {
@@ -147,7 +153,12 @@ func VP_C12_UpgradeBehaviour() {
 	vpSettle()
 	vpAssert("verdict", ok == (pw == "old"))
 	changed := !vpFsSame(before, vpFsSnapshot(base))
-	upgradeDue := mode == "local" && def == 2 && pw == "old"
+	upgradeDue := mode == "local" && def == 2 && pw == "old" && !obstructed
+	if obstructed {
+		d, _ := lib.NewDirFromConfig(s.configfile)
+		okAfter, _, _, _, _ := d.Authenticate("u", "old")
+		vpAssert("login-whose-upgrade-cannot-be-written-leaves-the-record-usable", okAfter)
+	}
 	vpAssert("failed-or-current-or-disabled-login-never-rewrites", vpImp(!upgradeDue, !changed))
 	if upgradeDue {
 		vpAssert("upgrade-happens-on-an-idle-agent", changed)
